@@ -196,6 +196,30 @@ theorem unify_sound_complex (a b : Selector) (ha : Inv a) (hb : Inv b) (u : Sele
     Selector.isSuperF superSpec a u = true ∧ Selector.isSuperF superSpec b u = true :=
   (sound_all cfacts _).2.1 a b ha hb u hu
 
+/-- **Complex ∪ complex with pseudo-elements on the rightmost compounds** (specification
+configuration): `Inv` is only needed for the parts to the left of the rightmost compounds; the
+rightmost compounds may carry a pseudo-element each, under the hypotheses of
+`compound_unify_sound` (both or neither has one, at most one per compound, element types with
+≤ 1 `|`) — which is where CSS allows pseudo-elements. -/
+theorem unify_sound_complex_pe (a b : Selector)
+    (hla : ∀ k s c, a = .rel k s c → Inv s) (hlb : ∀ k s c, b = .rel k s c → Inv s)
+    (hpe : a.compound.pseudoElement.isSome = b.compound.pseudoElement.isSome)
+    (h1 : a.compound.onePe) (h2 : b.compound.onePe)
+    (hwa : ∀ e, a.compound.elem = some e → elemWf e = true)
+    (hwb : ∀ e, b.compound.elem = some e → elemWf e = true)
+    (u : Selector) (hu : u ∈ Selector.unify unifySpec a b) :
+    Selector.isSuperF superSpec a u = true ∧ Selector.isSuperF superSpec b u = true :=
+  unify_sound_top cfacts a b hla hlb
+    (fun c hc => compound_unify_sound _ _ c hpe h1 h2 hwa hwb hc) u hu
+
+/- NOT REACHED (kept visible): the as-is `_partial` of `unify_sound_complex`, i.e. for
+`q := { sup := { parentStrict := true } }` (the code today):
+  `(∀ link of a, b: not `>`) ∨ (∀ link of a, b: neither `~` nor `+`) → Inv a → Inv b →
+     u ∈ Selector.unify q a b → Selector.isSuperF q.sup a u ∧ Selector.isSuperF q.sup b u`.
+It needs Sel/UnifyComplex.lean generalised over the `through` flag and the quirk record
+(`compound_unify_sound` for `superStrict` via `C23.super_trans_strict`); the only lemma that
+uses `through = true` is `link_par_deep`, reached only from the (`>`, `~`/`+`) arms. -/
+
 /-- **The property's law for `selector.unify` on lists of complex selectors** (specification
 configuration): every complex selector of `selector.unify(A, B)` has `A` and `B` as
 superselectors in the sense of `selector.is-superselector`. -/
